@@ -316,7 +316,9 @@ def merge_rules(R, pfx="C07"):
         g_ = cfg_of(rv)
         nones = set(AggSink("core::option::Option", "None", dest_ty="SignedRegister").blocks(rv))
         somes_ = set(AggSink("core::option::Option", "Some", dest_ty="SignedRegister").blocks(rv))
-        okn = bool(acc_) and bool(rej_) and bool(nones) and all(not (g_.reach((d,)) & nones) for _, d in rej_) and all(not (g_.reach((d,)) & somes_) for _, d in acc_)
+        # (a verdict kept in a variable and branched on twice — `if changed { log } else { log }; Ok(changed.then_some(merged))` — joins and splits
+        # again: from one side of the verdict the other side's edges are not paths of the program)
+        okn = bool(acc_) and bool(rej_) and bool(nones) and all(not (g_.reach((d,), cut=set(acc_)) & nones) for _, d in rej_) and all(not (g_.reach((d,), cut=set(rej_)) & somes_) for _, d in acc_)
         if not okn:
             R.viol(pfx + ".reg.noop", "noop-polarity", "register_validation does not answer None exactly when the merged register equals the local one "
                    "(an update that adds operations must be stored; an unchanged register need not be)", rv, rv.lines[0])
